@@ -18,7 +18,7 @@ REG64 = ["rax", "rbx", "rcx", "rdx", "rsi", "rdi", "rbp", "rsp", "r8", "r9", "r1
 REG32 = ["eax", "ebx", "ecx", "edx", "esi", "edi", "ebp", "esp", "r8d", "r9d", "r12d"]
 REG16 = ["ax", "bx", "cx", "dx", "si", "di"]
 REG8 = ["al", "bl", "cl", "dl", "ah", "bh", "sil", "dil"]
-IMMS = ["0x0", "0x1", "0x8", "0x10", "0x28", "0x3f", "0xff", "0x1000", "0xa1b2", "0xffffffff"]
+IMMS = ["0x0", "0x1", "0x8", "0x10", "0x28", "0x3f", "0xff", "0x16", "0xa1b2", "0xffffffff"]
 OFFS = ["0x0", "0x8", "0x10", "0x18", "0x28", "0x40", "0x1de61", "-0x8", "-0x14"]
 SCALES = ["1", "2", "4", "8"]
 JCC = ["je", "jne", "jg", "jge", "jl", "jle", "jz", "jnz", "ja", "jb", "js"]
@@ -386,3 +386,51 @@ MACRO_DIRS = ["macros", "macros", "my macros", "m/acro"]
 def pick_names(rng):
     """File names a user could plausibly use: sub-directories, spaces, non-ASCII, no extension."""
     return {"rule": rng.choice(RULE_NAMES), "asm": rng.choice(ASM_NAMES), "bin": rng.choice(BIN_NAMES), "macro_dir": rng.choice(MACRO_DIRS)}
+
+
+_RELOC_CACHE: dict = {}
+
+
+def relocate(elf: bytes, addr: int):
+    """The same object with every section moved by `addr` (objcopy --change-addresses): code at high load addresses."""
+    key = (util.digest(elf), addr)
+    if key in _RELOC_CACHE:
+        return _RELOC_CACHE[key]
+    d = os.path.join(util.scratch_root(), f"as-{os.getpid()}")
+    os.makedirs(d, exist_ok=True)
+    a, b = os.path.join(d, "reloc_in.o"), os.path.join(d, "reloc_out.o")
+    with open(a, "wb") as fh:
+        fh.write(elf)
+    p = subprocess.run(["objcopy", f"--change-addresses={addr:#x}", a, b], stdout=subprocess.PIPE, stderr=subprocess.PIPE)
+    out = None
+    if p.returncode == 0 and os.path.isfile(b):
+        with open(b, "rb") as fh:
+            out = fh.read()
+    if len(_RELOC_CACHE) > 1024:
+        _RELOC_CACHE.clear()
+    _RELOC_CACHE[key] = out
+    return out
+
+
+def gen_listing_repeated(rng):
+    """A listing in the style of a relocatable object with one function per section: every section
+    restarts at address 0 with byte-identical first lines, so matches (and their addresses) repeat."""
+    block = [("push", ["%rbp"]), ("mov", ["%rsp", "%rbp"])] + [gen_instruction(rng, addr_pool=[0x10, 0x20]) for _ in range(rng.randrange(1, 4))]
+    sub = random_copy(rng)
+    head, _end = render_listing(sub, block, base=0, section=".text.f0", header=False)
+    head_lines = head.split("\n")
+    out = ["", "multi.o:     file format elf64-x86-64", "", ""]
+    k = rng.randrange(2, 5)
+    for i in range(k):
+        lines = list(head_lines)
+        lines[0] = f"Disassembly of section .text.f{i}:"
+        out += lines
+        if rng.random() < 0.5:
+            tail, _e = render_listing(rng, [gen_instruction(rng, addr_pool=[0x10]) for _ in range(rng.randrange(1, 4))], base=0x40, section="x", header=False)
+            out += tail.split("\n")[3:]
+    return "\n".join(out) + "\n", block
+
+
+def random_copy(rng):
+    import random
+    return random.Random(rng.getrandbits(64))
